@@ -558,6 +558,10 @@ func c09Run(c *verifeng.Chooser, f *c09fix, depth int) {
 
 	for d := 0; d < depth && !c.Failed(); d++ {
 		verifbubble.Wait()
+		if sig, detail := verifbubble.LockOrder(); sig != "" {
+			c.Fail("C09", "lock-order-inversion:"+sig, "%s", detail)
+			return
+		}
 		if judge() {
 			return
 		}
